@@ -274,6 +274,28 @@ def deCols (k : Kinds) (e : Nat) (length : Nat) : List Nat → P (List (List Val
       | .error err => .error err
       | .ok (cols, ts'') => .ok (col :: cols, ts'')
 
+/-- Row-wise body of an archetype: `length` rows `(identifier, components…)`. -/
+def deArchBodyRows (k : Kinds) (e h : Nat) (mask : Mask) (length : Nat) : P Arch := fun ts =>
+  match tupleOf length (deRow k e mask.comps) ts with
+  | .error err => .error err
+  | .ok (rows, ts') =>
+    .ok (⟨h, mask, rows.map (·.1), transpose mask.comps.length (rows.map (·.2))⟩, ts')
+
+/-- Column-wise body of an archetype: the identifier column, then one column per component. -/
+def deArchBodyCols (k : Kinds) (e h : Nat) (mask : Mask) (length : Nat) : P Arch := fun ts =>
+  match expectTup (mask.comps.length + 1) ts with
+  | .error err => .error err
+  | .ok (_, tsa) =>
+    match elem .tupE (tupleOf length deIdent) tsa with
+    | .error err => .error err
+    | .ok (ids, tsb) =>
+      match deCols k e length mask.comps tsb with
+      | .error err => .error err
+      | .ok (cols, tsc) =>
+        match assertEnded false .tupE tsc with
+        | .error err => .error err
+        | .ok (_, tsd) => .ok (⟨h, mask, ids, cols⟩, tsd)
+
 /-- `Archetype::deserialize` with handle `h`. -/
 def deArch (k : Kinds) (hr : Bool) (n e h : Nat) : P Arch := fun ts =>
   match ts with
@@ -289,27 +311,8 @@ def deArch (k : Kinds) (hr : Bool) (n e h : Nat) : P Arch := fun ts =>
         match elem .tupE deU64 ts2 with
         | .error err => .error err
         | .ok (length, ts3) =>
-          let comps := mask.comps
-          let body : P Arch :=
-            if hr then fun ts =>
-              match tupleOf length (deRow k e comps) ts with
-              | .error err => .error err
-              | .ok (rows, ts') =>
-                .ok (⟨h, mask, rows.map (·.1), transpose comps.length (rows.map (·.2))⟩, ts')
-            else fun ts =>
-              match expectTup (comps.length + 1) ts with
-              | .error err => .error err
-              | .ok (_, tsa) =>
-                match elem .tupE (tupleOf length deIdent) tsa with
-                | .error err => .error err
-                | .ok (ids, tsb) =>
-                  match deCols k e length comps tsb with
-                  | .error err => .error err
-                  | .ok (cols, tsc) =>
-                    match assertEnded false .tupE tsc with
-                    | .error err => .error err
-                    | .ok (_, tsd) => .ok (⟨h, mask, ids, cols⟩, tsd)
-          match elem .tupE body ts3 with
+          match elem .tupE (if hr then deArchBodyRows k e h mask length
+                            else deArchBodyCols k e h mask length) ts3 with
           | .error err => .error err
           | .ok (a, ts4) =>
             match assertEnded false .tupE ts4 with
@@ -416,56 +419,62 @@ def fromParts (length : Nat) (free : List Ident) (archs : List Arch) : Except St
       if sl2.any Option.isNone then .error "missing-entity-index"
       else .ok ⟨sl2.filterMap id, free.map (·.index)⟩
 
+/-- The archetypes element of a serialized world: a sequence of archetypes. -/
+def deArchsSeq (k : Kinds) (hr : Bool) (n e next : Nat) : P (List Arch) := fun ts =>
+  match ts with
+  | .seqB _ :: ts' => deArchs k hr n e (ts'.length + 1) next [] ts'
+  | [] => .error "end-of-tokens"
+  | _ => .error "invalid-type"
+
+def deResGo (k : Kinds) (e : Nat) : List Nat → P (List Val)
+  | [] => fun ts => .ok ([], ts)
+  | p :: ps => fun ts =>
+    match elem .tupE (deVal k e (resTy p)) ts with
+    | .error err => .error err
+    | .ok (v, ts') =>
+      match deResGo k e ps ts' with
+      | .error err => .error err
+      | .ok (vs, ts'') => .ok (v :: vs, ts'')
+
+/-- The resources element: a counted tuple of `nres` values. -/
+def deRes (k : Kinds) (nres e : Nat) : P (List Val) := fun ts =>
+  match expectTup nres ts with
+  | .error err => .error err
+  | .ok (_, tsa) =>
+    match deResGo k e (List.range nres) tsa with
+    | .error err => .error err
+    | .ok (vs, tsb) =>
+      match assertEnded false .tupE tsb with
+      | .error err => .error err
+      | .ok (_, tsc) => .ok (vs, tsc)
+
+/-- The world assembled from deserialized parts. -/
+def assemble (n next : Nat) (archs : List Arch) (al : Alloc) (res : List Val) : World :=
+  { n := n, archs := archs, typeIds := [],
+    foreign := archs.map (fun a => (a.mask, a.handle)),
+    alloc := al, len := (archs.map (·.ids.length)).sum, res := res,
+    next := next + archs.length }
+
 /-- `World::deserialize`. `nres` resources, values re-tagged with epoch `e`, handles from `next`. -/
 def deserialize (k : Kinds) (hr : Bool) (n nres e next : Nat) (toks : List Tok) : Except String World :=
   match expectTup 3 toks with
   | .error err => .error err
   | .ok (_, ts0) =>
-    -- archetypes
-    let archsP : P (List Arch) := fun ts =>
-      match ts with
-      | .seqB _ :: ts' => deArchs k hr n e (ts'.length + 1) next [] ts'
-      | [] => .error "end-of-tokens"
-      | _ => .error "invalid-type"
-    match elem .tupE archsP ts0 with
+    match elem .tupE (deArchsSeq k hr n e next) ts0 with
     | .error err => .error err
     | .ok (archs, ts1) =>
-      -- column / row arity already enforced; allocator next
       match elem .tupE deAllocParts ts1 with
       | .error err => .error err
       | .ok ((length, free), ts2) =>
         match fromParts length free archs with
         | .error err => .error err
         | .ok al =>
-          let resP : P (List Val) := fun ts =>
-            match expectTup nres ts with
-            | .error err => .error err
-            | .ok (_, tsa) =>
-              let rec go : List Nat → P (List Val)
-                | [] => fun ts => .ok ([], ts)
-                | p :: ps => fun ts =>
-                  match elem .tupE (deVal k e (resTy p)) ts with
-                  | .error err => .error err
-                  | .ok (v, ts') =>
-                    match go ps ts' with
-                    | .error err => .error err
-                    | .ok (vs, ts'') => .ok (v :: vs, ts'')
-              match go (List.range nres) tsa with
-              | .error err => .error err
-              | .ok (vs, tsb) =>
-                match assertEnded false .tupE tsb with
-                | .error err => .error err
-                | .ok (_, tsc) => .ok (vs, tsc)
-          match elem .tupE resP ts2 with
+          match elem .tupE (deRes k nres e) ts2 with
           | .error err => .error err
           | .ok (res, ts3) =>
             match assertEnded false .tupE ts3 with
             | .error err => .error err
-            | .ok _ =>
-              .ok { n := n, archs := archs, typeIds := [],
-                    foreign := archs.map (fun a => (a.mask, a.handle)),
-                    alloc := al, len := (archs.map (·.ids.length)).sum, res := res,
-                    next := next + archs.length }
+            | .ok _ => .ok (assemble n next archs al res)
 
 end Serde
 end Brood
